@@ -6,16 +6,26 @@ package main
 // Both record one trace (harness events + hook events + connection taps in the
 // order of the hook counter) which TLC validates against TraceSignal.tla.
 //
-// Cast (fixed, TraceSignal.tla knows it):
-//   t1, t2: connection c1, signal A (one bus.Client: shared reference count)
-//   t3    : connection c1, signal B      t4: connection c2, signal A
-//   t5    : connection c2, signal B
+// Objects of a scenario (fresh services per scenario, all of the generated type
+// examples/space Bomb, so they share their action ids):
+//   o1  main object (id 1) of service S1
+//   o2  a second object of S1 (Service.Add): same service, same actions, other object id
+//   o3  main object (id 1) of service S2: other service, same object id as o1
+// Connections: c1, c2 unix sockets; c3 a harness-owned pipe whose server -> client
+// direction can be broken (c13stream.go).  ONE bus.Client per connection (what a
+// Session keeps per end point): every proxy of a connection shares the client's
+// subscription state and its end point.
+//
+// Cast (fixed, Signal.tla knows it as Cast / CastConn / CastObj / CastSig):
+//   t1, t2: c1 o1 A     t3: c1 o1 B     t4: c2 o1 A     t5: c2 o1 B
+//   t6: c1 o2 A         t7: c2 o2 A     t8: c1 o3 A     t9: c3 o1 A     t10: c3 o2 A
 // Signal A is Bomb's signal "boom" (Signal<Boom> helper), signal B is the change
 // event of property "delay" (Update<Delay> helper): both go through
 // signalHandler.UpdateSignal and the generated Subscribe<X> proxies.
 
 import (
 	"bytes"
+	"encoding/binary"
 	"encoding/json"
 	"fmt"
 	"os"
@@ -25,14 +35,27 @@ import (
 	"sync"
 	"time"
 
+	"github.com/lugu/qiloop/bus"
 	"github.com/lugu/qiloop/bus/net"
+	"github.com/lugu/qiloop/bus/util"
 	"github.com/lugu/qiloop/examples/space"
+	"github.com/lugu/qiloop/type/object"
 	"github.com/lugu/qiloop/vhook"
+	"verif/harness/hlib"
 )
 
-var castConn = map[string]string{"t1": "c1", "t2": "c1", "t3": "c1", "t4": "c2", "t5": "c2"}
-var castSig = map[string]string{"t1": "A", "t2": "A", "t3": "B", "t4": "A", "t5": "B"}
+var castConn = map[string]string{"t1": "c1", "t2": "c1", "t3": "c1", "t4": "c2", "t5": "c2",
+	"t6": "c1", "t7": "c2", "t8": "c1", "t9": "c3", "t10": "c3"}
+var castSig = map[string]string{"t1": "A", "t2": "A", "t3": "B", "t4": "A", "t5": "B",
+	"t6": "A", "t7": "A", "t8": "A", "t9": "A", "t10": "A"}
+var castObj = map[string]string{"t1": "o1", "t2": "o1", "t3": "o1", "t4": "o1", "t5": "o1",
+	"t6": "o2", "t7": "o2", "t8": "o3", "t9": "o1", "t10": "o2"}
 var sigAction = map[string]uint32{"A": boomID, "B": delayID}
+var allThreads = []string{"t1", "t2", "t3", "t4", "t5", "t6", "t7", "t8", "t9", "t10"}
+
+// injectID is the message id of the messages the harness injects: no call of a
+// scenario gets that far.
+const injectID = 0x7fff0000
 
 func goid() int64 {
 	var buf [64]byte
@@ -57,7 +80,7 @@ type evLog struct {
 }
 
 func (l *evLog) sink(e vhook.Event) {
-	if e.Comp == "endpoint" {
+	if e.Comp == "endpoint" || e.Comp == "service" || e.Comp == "server" {
 		return
 	}
 	l.mu.Lock()
@@ -88,10 +111,70 @@ func (s *scenario) pointOnly(gate string) {
 	}
 }
 
+// world13 is one server; services and objects are created per scenario.
+type world13 struct {
+	addr string
+	srv  bus.Server
+	ml   *mixListener
+	meta *object.MetaObject // of a Bomb: the same for every object of the scenarios
+	nsvc int
+}
+
+func newWorld13() *world13 {
+	addr := util.NewUnixAddr()
+	l, err := net.Listen(addr)
+	if err != nil {
+		hlib.Fatal("listen %s: %v", addr, err)
+	}
+	ml := newMixListener(l)
+	srv, err := bus.StandAloneServer(ml, bus.Yes{}, bus.PrivateNamespace())
+	if err != nil {
+		hlib.Fatal("server: %v", err)
+	}
+	return &world13{addr: addr, srv: srv, ml: ml}
+}
+
+// sobj is one object of the scenario.
+type sobj struct {
+	name     string
+	sid, oid uint32
+	impl     *bombImpl
+}
+
+// conn13 is one client connection with ONE bus.Client.
+type conn13 struct {
+	name   string
+	ep     net.EndPoint
+	client bus.Client
+	pipe   *pipe // nil: unix socket
+}
+
+func (w *world13) dial(name string, piped bool) *conn13 {
+	c := &conn13{name: name}
+	if piped {
+		c.pipe = newPipe(name)
+		w.ml.ch <- pipeEnd{c.pipe, true}
+		c.ep = net.NewEndPoint(pipeEnd{c.pipe, false})
+	} else {
+		ep, err := net.DialEndPoint(w.addr)
+		if err != nil {
+			hlib.Fatal("dial: %v", err)
+		}
+		c.ep = ep
+	}
+	if err := bus.Authenticate(c.ep); err != nil {
+		hlib.Fatal("authenticate %s: %v", name, err)
+	}
+	c.client = bus.NewClient(bus.NewChannel(c.ep, bus.DefaultCap()))
+	return c
+}
+
+func (c *conn13) dead() bool { return c.pipe != nil && c.pipe.broken() }
+
 // sthread is one user of the generated Subscribe<X> API.
 type sthread struct {
 	name   string
-	conn   *conn
+	conn   *conn13
 	bomb   space.BombProxy
 	cmd    chan string
 	subRet chan error // result of the Subscribe call in flight
@@ -107,55 +190,179 @@ type sthread struct {
 	phase string
 }
 
+type emission struct{ o, sig string }
+
 type scenario struct {
-	w       *world
-	id      uint32
-	impl    *bombImpl
-	conns   map[string]*conn
-	threads map[string]*sthread
-	log     *evLog
-	taps    []func()
-	k       int // emissions made
-	emitRet chan struct{}
-	byGid   sync.Map // goroutine id -> thread name
+	w        *world13
+	objs     map[string]*sobj
+	svcs     []bus.Service
+	spy      *spyActor
+	spyID    uint32
+	spyChan  map[string]bus.Channel // server-side channel of each connection
+	rogueRet chan error             // result of the foreign unregisterEvent call in flight
+	conns    map[string]*conn13
+	threads  map[string]*sthread
+	log      *evLog
+	taps     []func()
+	emits    []emission // emissions made (1-based: emits[k-1])
+	emitRet  chan struct{}
+	byGid    sync.Map       // goroutine id -> thread name
+	instObj  map[int]string // signalHandler (hook instance) -> object
 }
 
-func newScenario(w *world, conns map[string]*conn) *scenario {
-	s := &scenario{w: w, conns: conns, threads: map[string]*sthread{}, log: &evLog{}}
-	s.id, s.impl = w.addBomb()
-	vhook.SetSink(s.log.sink)
-	for cn, c := range conns {
-		name := cn
-		ep := c.ep
-		oid := s.id
-		hid := ep.MakeHandler(func(h *net.Header) (bool, bool) {
-			if h.Service != w.sid || h.Object != oid {
-				return false, true
-			}
-			switch {
-			case h.Type == net.Event && h.Action == boomID:
-				hev("wire", "c", name, "t", "ev", "sig", "A", "ok", 1)
-			case h.Type == net.Event && h.Action == delayID:
-				hev("wire", "c", name, "t", "ev", "sig", "B", "ok", 1)
-			case (h.Type == net.Reply || h.Type == net.Error) && (h.Action == 0 || h.Action == 1):
-				ok := 0
-				if h.Type == net.Reply {
-					ok = 1
-				}
-				hev("wire", "c", name, "t", "rep", "sig", "", "ok", ok)
-			}
-			return false, true
-		}, make(chan *net.Message, 1), nil)
-		s.taps = append(s.taps, func() { ep.RemoveHandler(hid) })
+// newScenario sets up fresh services / objects, the connections and the threads
+// (all of the cast when threads is nil).
+func newScenario(w *world13, threads []string) *scenario {
+	s := &scenario{w: w, objs: map[string]*sobj{}, conns: map[string]*conn13{}, threads: map[string]*sthread{},
+		log: &evLog{}, spyChan: map[string]bus.Channel{}}
+	if threads == nil {
+		threads = allThreads
 	}
-	for th, cn := range castConn {
-		t := &sthread{name: th, conn: conns[cn], bomb: conns[cn].bomb(w, s.id), cmd: make(chan string, 4),
+	w.nsvc++
+	mk := func(name string) (bus.Service, *bombImpl) {
+		impl := &bombImpl{}
+		svc, err := w.srv.NewService(fmt.Sprintf("Bomb-%d-%s", w.nsvc, name), space.BombObject(impl))
+		if err != nil {
+			hlib.Fatal("service: %v", err)
+		}
+		if impl.helper == nil {
+			hlib.Fatal("main object not activated")
+		}
+		s.svcs = append(s.svcs, svc)
+		return svc, impl
+	}
+	svc1, impl1 := mk("a")
+	s.objs["o1"] = &sobj{"o1", svc1.ServiceID(), 1, impl1}
+	impl2 := &bombImpl{}
+	oid2, err := svc1.Add(space.BombObject(impl2))
+	if err != nil || impl2.helper == nil {
+		hlib.Fatal("add object: %v", err)
+	}
+	s.objs["o2"] = &sobj{"o2", svc1.ServiceID(), oid2, impl2}
+	svc2, impl3 := mk("b")
+	s.objs["o3"] = &sobj{"o3", svc2.ServiceID(), 1, impl3}
+	s.spy = &spyActor{}
+	if s.spyID, err = svc1.Add(s.spy); err != nil {
+		hlib.Fatal("add spy: %v", err)
+	}
+
+	need := map[string]bool{"c1": true, "c2": true}
+	for _, th := range threads {
+		need[castConn[th]] = true
+	}
+	for cn := range need {
+		s.conns[cn] = w.dial(cn, cn == "c3")
+	}
+	if w.meta == nil {
+		m, err := bus.GetMetaObject(s.conns["c1"].client, s.objs["o1"].sid, 1)
+		if err != nil {
+			hlib.Fatal("meta object: %v", err)
+		}
+		w.meta = &m
+	}
+	// one call of every connection to the spy object: the harness learns the server-side
+	// channel (and end point) of the connection
+	token := uint32(1000)
+	for cn, c := range s.conns {
+		token++
+		if _, err := c.client.Call(nil, s.objs["o1"].sid, s.spyID, token, []byte{}); err != nil {
+			hlib.Fatal("spy call: %v", err)
+		}
+		s.spyChan[cn] = s.spy.channel(token)
+	}
+	// which signalHandler (instance of the hook events) belongs to which object: one marked
+	// registration per object, made and removed before the scenario starts
+	s.instObj = map[int]string{}
+	var mu sync.Mutex
+	vhook.SetSink(func(e vhook.Event) {
+		if e.Comp == "signal" && e.Ev == "add" {
+			if u, _ := e.Map()["user"].(uint64); u >= 1 && u <= 3 {
+				mu.Lock()
+				s.instObj[e.Inst] = fmt.Sprintf("o%d", u)
+				mu.Unlock()
+			}
+		}
+	})
+	for n, ob := range s.objs {
+		var buf bytes.Buffer
+		binary.Write(&buf, binary.LittleEndian, ob.oid)
+		binary.Write(&buf, binary.LittleEndian, uint32(boomID))
+		binary.Write(&buf, binary.LittleEndian, uint64(n[1]-'0'))
+		for _, action := range []uint32{0, 1} { // registerEvent, unregisterEvent
+			if _, err := s.conns["c1"].client.Call(nil, ob.sid, ob.oid, action, buf.Bytes()); err != nil {
+				hlib.Fatal("marker registration on %s: %v", n, err)
+			}
+		}
+	}
+	if len(s.instObj) != len(s.objs) {
+		hlib.Fatal("marker registrations: %d of %d objects identified", len(s.instObj), len(s.objs))
+	}
+	vhook.SetSink(s.log.sink)
+	for _, c := range s.conns {
+		s.tap(c)
+	}
+	for _, th := range threads {
+		c := s.conns[castConn[th]]
+		t := &sthread{name: th, conn: c, bomb: s.bomb(c, castObj[th]), cmd: make(chan string, 4),
 			ready: make(chan struct{})}
 		s.threads[th] = t
 		go s.runThread(t)
 		<-t.ready
 	}
 	return s
+}
+
+// bomb returns a generated proxy of object o over connection c (no call is made).
+func (s *scenario) bomb(c *conn13, o string) space.BombProxy {
+	ob := s.objs[o]
+	return space.MakeBomb(nil, bus.NewProxy(c.client, *s.w.meta, ob.sid, ob.oid))
+}
+
+// objOf names the scenario object with these ids ("?" if there is none).
+func (s *scenario) objOf(sid, oid uint32) string {
+	for n, o := range s.objs {
+		if o.sid == sid && o.oid == oid {
+			return n
+		}
+	}
+	return "?"
+}
+
+func sigOf(action uint32) string {
+	for n, a := range sigAction {
+		if a == action {
+			return n
+		}
+	}
+	return "?"
+}
+
+// tap logs, synchronously inside the end point's dispatch (= the model's
+// Deliver), what reaches connection c: every Event, the replies to registerEvent
+// / unregisterEvent, the messages the harness injected.
+func (s *scenario) tap(c *conn13) {
+	name := c.name
+	hid := c.ep.MakeHandler(func(h *net.Header) (bool, bool) {
+		switch {
+		case h.ID == injectID:
+			c.pipe.alive(func() {
+				hev("wire", "c", name, "t", "inj", "o", s.objOf(h.Service, h.Object), "sig", sigOf(h.Action), "ok", 1)
+			})
+		case h.Type == net.Event:
+			c.pipe.alive(func() {
+				hev("wire", "c", name, "t", "ev", "o", s.objOf(h.Service, h.Object), "sig", sigOf(h.Action), "ok", 1)
+			})
+		case (h.Type == net.Reply || h.Type == net.Error) && (h.Action == 0 || h.Action == 1) &&
+			s.objOf(h.Service, h.Object) != "?":
+			ok := 0
+			if h.Type == net.Reply {
+				ok = 1
+			}
+			c.pipe.alive(func() { hev("wire", "c", name, "t", "rep", "o", "", "sig", "", "ok", ok) })
+		}
+		return false, true
+	}, make(chan *net.Message, 1), nil)
+	s.taps = append(s.taps, func() { c.ep.RemoveHandler(hid) })
 }
 
 // runThread executes "sub" / "cancel" commands on its own goroutine (the gates
@@ -201,14 +408,15 @@ func (t *sthread) startReader(ch chan int32) {
 	closed := make(chan struct{})
 	t.closed = closed
 	name := t.name
+	p := t.conn.pipe
 	go func() {
 		for v := range ch {
-			hev("recv", "th", name, "k", int(v))
+			p.alive(func() { hev("recv", "th", name, "k", int(v)) })
 			t.mu.Lock()
 			t.nrecv++
 			t.mu.Unlock()
 		}
-		hev("closed", "th", name)
+		p.alive(func() { hev("closed", "th", name) })
 		close(closed)
 	}()
 }
@@ -261,9 +469,13 @@ func (s *scenario) cancelCall(th string) {
 }
 
 // finish brings a thread's subscription to its end whatever phase it is in
-// (used when a scenario winds down; the gates are off by then).
+// (used when a scenario winds down; the gates are off by then).  The threads of
+// a broken connection are gone: nothing is done for them.
 func (s *scenario) finish(th string) {
 	t := s.threads[th]
+	if t.conn.dead() {
+		return
+	}
 	if t.phase == "subbing" {
 		if ok, good := s.subAck(th, TBound); !ok || !good {
 			return
@@ -289,21 +501,170 @@ func (s *scenario) finish(th string) {
 	}
 }
 
-func (s *scenario) emit(sig string) {
-	s.k++
-	k := s.k
+func (s *scenario) emit(o, sig string) {
+	s.emits = append(s.emits, emission{o, sig})
+	k := len(s.emits)
 	s.emitRet = make(chan struct{})
 	ret := s.emitRet
-	hev("emitcall", "k", k, "sig", sig)
+	impl := s.objs[o].impl
+	hev("emitcall", "k", k, "o", o, "sig", sig)
 	go func() {
 		if sig == "A" {
-			s.impl.helper.SignalBoom(int32(k))
+			impl.helper.SignalBoom(int32(k))
 		} else {
-			s.impl.helper.UpdateDelay(int32(k))
+			impl.helper.UpdateDelay(int32(k))
 		}
 		hev("emitret", "k", k)
 		close(ret)
 	}()
+}
+
+// inject makes the server send, on connection c, a message that is addressed
+// like an event of (o, sig) - same service, object and action - but is a Reply.
+func (s *scenario) inject(c, o, sig string) {
+	ch := s.spyChan[c]
+	if ch == nil {
+		hlib.Fatal("no spy channel for %s", c)
+	}
+	ob := s.objs[o]
+	hdr := net.NewHeader(net.Reply, ob.sid, ob.oid, sigAction[sig], injectID)
+	msg := net.NewMessage(hdr, le32(0))
+	hev("inject", "c", c, "o", o, "sig", sig)
+	if err := ch.Send(&msg); err != nil {
+		hlib.Fatal("inject: %v", err)
+	}
+}
+
+// liveUser returns the user id of a registration the server holds for connection vc,
+// object o, signal sig (the last one made), 0 if there is none.
+func (s *scenario) liveUser(vc, o, sig string) uint64 {
+	inst := vhook.ID(s.conns[vc].client)
+	ob := s.objs[o]
+	hkey := fmt.Sprintf("%d.%d.%d.handler", ob.sid, ob.oid, sigAction[sig])
+	mine := map[uint64]bool{}
+	var last uint64
+	live := map[uint64]bool{}
+	s.log.mu.Lock()
+	defer s.log.mu.Unlock()
+	for _, e := range s.log.evs {
+		m := e.Map()
+		switch {
+		case e.Comp == "client" && e.Ev == "state" && e.Inst == inst:
+			if key, _ := m["key"].(string); key == hkey {
+				if add, _ := m["add"].(int); add > 0 {
+					mine[uint64(add)] = true
+				}
+			}
+		case e.Comp == "signal" && (e.Ev == "add" || e.Ev == "remove"):
+			u, _ := m["user"].(uint64)
+			if mine[u] {
+				live[u] = e.Ev == "add"
+				if live[u] {
+					last = u
+				}
+			}
+		}
+	}
+	if live[last] {
+		return last
+	}
+	for u, ok := range live {
+		if ok {
+			return u
+		}
+	}
+	return 0
+}
+
+// rogue calls, on connection c, unregisterEvent of object o with the user id of the
+// registration connection vc holds for (o, sig).  The call runs on its own goroutine
+// (the server may be parked at a gate); its result arrives on s.rogueRet.
+func (s *scenario) rogue(c, o, sig, vc string) {
+	ob := s.objs[o]
+	u := s.liveUser(vc, o, sig)
+	var buf bytes.Buffer
+	binary.Write(&buf, binary.LittleEndian, ob.oid)
+	binary.Write(&buf, binary.LittleEndian, sigAction[sig])
+	binary.Write(&buf, binary.LittleEndian, u)
+	ret := make(chan error, 1)
+	s.rogueRet = ret
+	hev("rogue", "c", c, "o", o, "sig", sig, "vc", vc)
+	client := s.conns[c].client
+	go func() {
+		_, err := client.Call(nil, ob.sid, ob.oid, 1 /* unregisterEvent */, buf.Bytes())
+		ret <- err
+	}()
+}
+
+// flush makes a call on every live connection: when it has returned, what the
+// server sent on that connection before has been dispatched.
+func (s *scenario) flush() bool {
+	done := make(chan struct{})
+	go func() {
+		for _, c := range s.conns {
+			if !c.dead() {
+				s.bomb(c, "o1").IsStatsEnabled()
+			}
+		}
+		close(done)
+	}()
+	select {
+	case <-done:
+		return true
+	case <-time.After(TBound):
+		return false
+	}
+}
+
+// usersOf returns the user ids the client of connection c drew (the `add` of its
+// State(<key>.handler, handler) calls) and, of those, the ones the server
+// registered and has not removed since.
+func (s *scenario) liveRegistrations(c *conn13) int {
+	inst := vhook.ID(c.client)
+	users := map[uint64]bool{}
+	live := map[uint64]int{}
+	s.log.mu.Lock()
+	defer s.log.mu.Unlock()
+	for _, e := range s.log.evs {
+		m := e.Map()
+		switch {
+		case e.Comp == "client" && e.Ev == "state" && e.Inst == inst:
+			key, _ := m["key"].(string)
+			add, _ := m["add"].(int)
+			if strings.HasSuffix(key, ".handler") && add > 0 {
+				users[uint64(add)] = true
+			}
+		case e.Comp == "signal" && (e.Ev == "add" || e.Ev == "remove"):
+			u, _ := m["user"].(uint64)
+			if users[u] {
+				if e.Ev == "add" {
+					live[u]++
+				} else {
+					live[u]--
+				}
+			}
+		}
+	}
+	n := 0
+	for _, v := range live {
+		if v > 0 {
+			n++
+		}
+	}
+	return n
+}
+
+// waitClosers: after the server's reader has seen connection c end, the closers
+// of its registrations run (goroutines of the end point): wait for them.
+func (s *scenario) waitClosers(c *conn13, d time.Duration) bool {
+	deadline := time.Now().Add(d)
+	for s.liveRegistrations(c) > 0 {
+		if time.Now().After(deadline) {
+			return false
+		}
+		time.Sleep(50 * time.Microsecond)
+	}
+	return true
 }
 
 func (s *scenario) close() {
@@ -314,7 +675,12 @@ func (s *scenario) close() {
 		f()
 	}
 	vhook.SetSink(nil)
-	s.w.service.Remove(s.id)
+	for _, svc := range s.svcs {
+		svc.Terminate()
+	}
+	for _, c := range s.conns {
+		c.ep.Close()
+	}
 }
 
 // trace converts the collected events into the lines of TraceSignal.tla.
@@ -329,7 +695,15 @@ func (s *scenario) trace(out *os.File) int {
 		out.Write(append(b, '\n'))
 		n++
 	}
-	prefix := fmt.Sprintf("%d.%d.", s.w.sid, s.id)
+	type place struct{ c, o string }
+	userAt := map[uint64]place{} // user id -> the connection that drew it, the object it is for
+	instObj := s.instObj         // signalHandler -> object
+	epConn := map[int]string{}   // server-side end point -> connection
+	for cn, ch := range s.spyChan {
+		if ch != nil {
+			epConn[vhook.ID(ch.EndPoint())] = cn
+		}
+	}
 	echo := map[interface{}]int{}
 	s.log.mu.Lock()
 	defer s.log.mu.Unlock()
@@ -348,31 +722,34 @@ func (s *scenario) trace(out *os.File) int {
 			if e.Ev != "state" {
 				continue
 			}
-			key, _ := m["key"].(string)
-			if !strings.HasPrefix(key, prefix) {
-				continue
-			}
-			rest := strings.TrimPrefix(key, prefix)
-			hkey := 0
-			if strings.HasSuffix(rest, ".handler") {
-				hkey = 1
-				rest = strings.TrimSuffix(rest, ".handler")
-			}
-			act, _ := strconv.Atoi(rest)
-			sig := ""
-			for sn, a := range sigAction {
-				if int(a) == act {
-					sig = sn
-				}
-			}
 			cn, ok := clientConn[e.Inst]
-			if sig == "" || !ok {
+			if !ok {
 				continue
+			}
+			// key = "<service>.<object>.<action>[.handler]"
+			key, _ := m["key"].(string)
+			f := strings.Split(key, ".")
+			if len(f) < 3 {
+				continue
+			}
+			sid, _ := strconv.ParseUint(f[0], 10, 32)
+			oid, _ := strconv.ParseUint(f[1], 10, 32)
+			act, _ := strconv.ParseUint(f[2], 10, 32)
+			o, sig := s.objOf(uint32(sid), uint32(oid)), sigOf(uint32(act))
+			if o == "?" || sig == "?" {
+				continue
+			}
+			hkey := 0
+			if len(f) == 4 && f[3] == "handler" {
+				hkey = 1
 			}
 			add, _ := m["add"].(int)
 			val, _ := m["val"].(int)
 			// handler values are 63-bit random numbers: only their sign matters to the specification
 			if hkey == 1 {
+				if add > 0 {
+					userAt[uint64(add)] = place{cn, o}
+				}
 				val = 0
 				if add > 0 {
 					add = 1
@@ -380,40 +757,66 @@ func (s *scenario) trace(out *os.File) int {
 					add = -1
 				}
 			}
-			put(map[string]interface{}{"e": "state", "c": cn, "sig": sig, "hkey": hkey, "add": add, "val": val})
+			put(map[string]interface{}{"e": "state", "c": cn, "o": o, "sig": sig, "hkey": hkey, "add": add, "val": val})
 		case "signal":
+			user, _ := m["user"].(uint64)
+			ep, _ := m["ep"].(int)
+			// where: the object of the table (by the user id, else by the handler already seen),
+			// the connection of the registration (by the user id, else by the end point)
+			// (the end point of a table event is the one the request came from / the registration
+			// was made on: for a removal asked for by another connection it is the asking one)
+			where := func() (string, string, bool) {
+				p, known := userAt[user]
+				if known {
+					instObj[e.Inst] = p.o
+				}
+				o, ok1 := instObj[e.Inst]
+				c, ok2 := epConn[ep]
+				if !ok2 && known {
+					c, ok2 = p.c, true
+				}
+				return o, c, ok1 && ok2
+			}
 			switch e.Ev {
 			case "add":
-				put(map[string]interface{}{"e": e.Ev, "n": m["n"]})
+				if o, c, ok := where(); ok {
+					put(map[string]interface{}{"e": e.Ev, "o": o, "c": c, "n": m["n"]})
+				}
 			case "remove":
 				// RemoveHandler then runs the disconnect closer of the removed user, which
-				// calls removeSignalUser once more: that echo is not an unregistration
-				echo[m["user"]]++
-				put(map[string]interface{}{"e": e.Ev, "n": m["n"]})
+				// calls forgetSignalUser once more: that echo is not an unregistration
+				if o, c, ok := where(); ok {
+					echo[user]++
+					put(map[string]interface{}{"e": e.Ev, "o": o, "c": c, "n": m["n"]})
+				}
 			case "remove_unknown":
-				if echo[m["user"]] > 0 {
-					echo[m["user"]]--
+				if echo[user] > 0 {
+					echo[user]--
 					continue
 				}
-				put(map[string]interface{}{"e": e.Ev, "n": 0})
+				if o, c, ok := where(); ok {
+					put(map[string]interface{}{"e": e.Ev, "o": o, "c": c, "n": 0})
+				}
 			case "add_dup":
-				put(map[string]interface{}{"e": e.Ev, "n": 0})
+				if o, c, ok := where(); ok {
+					put(map[string]interface{}{"e": e.Ev, "o": o, "c": c, "n": 0})
+				}
 			case "snapshot":
+				// the payload is the number of the emission
+				data, _ := m["data"].([]byte)
+				if len(data) != 4 {
+					continue
+				}
+				k := int(binary.LittleEndian.Uint32(data))
+				if k < 1 || k > len(s.emits) {
+					continue
+				}
 				sid, _ := m["signal"].(uint32)
-				sig := ""
-				for sn, a := range sigAction {
-					if a == sid {
-						sig = sn
-					}
-				}
-				if sig != "" {
-					put(map[string]interface{}{"e": "snapshot", "sig": sig, "n": m["n"]})
-				}
+				instObj[e.Inst] = s.emits[k-1].o
+				put(map[string]interface{}{"e": "snapshot", "o": s.emits[k-1].o, "sig": sigOf(sid), "n": m["n"]})
 			}
 		}
 	}
 	put(map[string]interface{}{"e": "reset"})
 	return n
 }
-
-var _ = bytes.NewBuffer
